@@ -25,6 +25,9 @@ structure Quirks where
   overlapExact : Bool
   /-- `false`: `MaxGran` is only measured when at least one bound of `-r` is automatic -/
   maxGranAlways : Bool
+  /-- `false`: a file whose last data record is followed only by `$00` and an empty creator string is
+  rejected (`NextPos >= FileSize − 1`) -/
+  emptyCreatorOK : Bool := false
 deriving Repr, Inhabited
 
 /-- the state the command line leaves in `p2bin.c`'s globals -/
@@ -241,7 +244,7 @@ def p2bin (q : Quirks) (o : Opts) (files : List Input) (creatorLens : List Nat) 
   match window q o sel with
   | .error e => .error e
   | .ok w =>
-    if (files.zip creatorLens).any (fun fc => formatTrap fc.1.1 fc.2) then .error .format else
+    if !q.emptyCreatorOK && (files.zip creatorLens).any (fun fc => formatTrap fc.1.1 fc.2) then .error .format else
     let st := procAll q o w sel
     let entry := match o.entry with | some e => some e | none => firstEntry files
     let f1 := writeHeader o entry st.file
